@@ -84,6 +84,10 @@ func (c *Case) newValue(twin bool) reflect.Value {
 	if len(c.Dyn) > 0 {
 		c.fill(td, p.Elem(), c.Pre, twin)
 	}
+	if len(c.Alias) > 0 {
+		// (runCase has checked that the value takes every link)
+		_ = applyAlias(p.Elem(), c.Alias)
+	}
 	return p
 }
 
